@@ -10,6 +10,7 @@ import (
 
 	"github.com/go-kid/ioc/app"
 	"github.com/go-kid/ioc/container"
+	"github.com/go-kid/ioc/definition"
 	"pgregory.net/rapid"
 	"verif/harness/kit"
 )
@@ -48,6 +49,19 @@ type AppRefCloser struct {
 	Fac container.Factory `wire:",required=false"`
 }
 
+// CollectorCloser is a closer that collects all closers itself (the container leaves the holder out of its own
+// slice); its name sorts before the App's, so its slice is populated before the App's own closer list.
+type CollectorCloser struct {
+	Closer
+	Others []definition.CloserComponent `wire:",required=false"`
+}
+
+// FailRunner makes the runner phase - and therefore Run - fail: the closers exist by then and a clean-up
+// Close must reach them all the same.
+type FailRunner struct{}
+
+func (*FailRunner) Run() error { return errors.New("runner failed") }
+
 // Stateless closers: zero-size struct types (all such objects share one address in Go).
 var zcalls [3]int32
 var zgate chan struct{}
@@ -58,7 +72,11 @@ type ZCloser2 struct{}
 
 func (*ZCloser0) Close() error { atomic.AddInt32(&zcalls[0], 1); <-zgate; return nil }
 func (*ZCloser1) Close() error { atomic.AddInt32(&zcalls[1], 1); <-zgate; return nil }
-func (*ZCloser2) Close() error { atomic.AddInt32(&zcalls[2], 1); <-zgate; return errors.New("stateless closer failed") }
+func (*ZCloser2) Close() error {
+	atomic.AddInt32(&zcalls[2], 1)
+	<-zgate
+	return errors.New("stateless closer failed")
+}
 
 // Bystander: an ordinary component that is not a closer.
 type Bystander struct{ N int }
@@ -83,6 +101,13 @@ func TestClose(t *testing.T) {
 				comps = append(comps, ac)
 				continue
 			}
+			if i == 0 && rapid.IntRange(0, 2).Draw(t, "collector") == 0 {
+				cc := &CollectorCloser{}
+				cc.name, cc.gate, cc.fail = "a-collector", c.gate, c.fail // sorts before github.com/go-kid/ioc/app/App
+				cs[i] = &cc.Closer
+				comps = append(comps, cc)
+				continue
+			}
 			if rapid.IntRange(0, 4).Draw(t, "lazy") == 0 {
 				lazy++
 				comps = append(comps, &LazyCloser{Closer: Closer{}})
@@ -105,10 +130,18 @@ func TestClose(t *testing.T) {
 		// one or two (overlapping) Close calls
 		ncalls := rapid.SampledFrom([]int{1, 1, 1, 2}).Draw(t, "closecalls")
 		release := rapid.Permutation(seq(n)).Draw(t, "release")
+		failRun := rapid.IntRange(0, 4).Draw(t, "failingrunner") == 0
+		if failRun {
+			comps = append(comps, &FailRunner{})
+		}
 		comps = rapid.Permutation(comps).Draw(t, "regorder")
 		out := kit.RunApp(app.SetComponents(comps...))
-		desc := fmt.Sprintf("n=%d failing=%d lazy=%d zero-size=%d closecalls=%d release=%v", n, failing, lazy, nz, ncalls, release)
-		if !out.OK() {
+		desc := fmt.Sprintf("n=%d failing=%d lazy=%d zero-size=%d closecalls=%d release=%v runner-fails=%v", n, failing, lazy, nz, ncalls, release, failRun)
+		if failRun {
+			if out.Panic != nil || out.Err == nil {
+				t.Fatalf("C14: a runner fails: Run must return an error, got %v (%s)", out, desc)
+			}
+		} else if !out.OK() {
 			t.Fatalf("C14: start failed: %v (%s)", out, desc)
 		}
 		closed := make(chan struct{})
@@ -228,7 +261,6 @@ func seq(n int) []int {
 	return r
 }
 
-
 // TestSlowCloser: one closer stays blocked for seconds (longer than any plausible "slow closer" warning
 // threshold the quick tier can afford): App.Close must still be waiting when it finally returns.
 func TestSlowCloser(t *testing.T) {
@@ -264,4 +296,79 @@ func TestSlowCloser(t *testing.T) {
 	}
 	kit.Rec.Case(fmt.Sprintf("slow closer held %v next to a failing quick one", hold), true, "slow-closer")
 	kit.Rec.Case(fmt.Sprintf("slow closer (tier %s)", kit.Tier()), true, "slow-closer")
+}
+
+// ServeRunner is a runner that serves until it is closed (the usual server shape): Run blocks, Close unblocks it.
+type ServeRunner struct {
+	entered chan struct{}
+	stop    chan struct{}
+	closes  int32
+}
+
+func (s *ServeRunner) Run() error { close(s.entered); <-s.stop; return nil }
+func (s *ServeRunner) Close() error {
+	if atomic.AddInt32(&s.closes, 1) == 1 {
+		close(s.stop)
+	}
+	return nil
+}
+
+// TestCloseWhileRunnerServes: Run is still inside a blocking runner when App.Close is called from another
+// goroutine. The closers were registered long before: every one of them is invoked exactly once, Close waits for
+// them, and the serving runner - itself a closer - is released so that Run returns.
+func TestCloseWhileRunnerServes(t *testing.T) {
+	kit.Rec.Rule(rule)
+	rapid.Check(t, func(t *rapid.T) {
+		n := rapid.IntRange(0, 5).Draw(t, "n")
+		srv := &ServeRunner{entered: make(chan struct{}), stop: make(chan struct{})}
+		comps := []any{srv, &Bystander{}}
+		cs := make([]*Closer, n)
+		for i := range cs {
+			cs[i] = &Closer{name: fmt.Sprintf("closer-%02d", i), gate: make(chan struct{}), fail: rapid.IntRange(0, 3).Draw(t, "fail") == 0}
+			close(cs[i].gate)
+			comps = append(comps, cs[i])
+		}
+		comps = rapid.Permutation(comps).Draw(t, "regorder")
+		a := app.NewApp()
+		runDone := make(chan error, 1)
+		go func() {
+			defer func() {
+				if r := recover(); r != nil {
+					runDone <- fmt.Errorf("panic: %v", r)
+				}
+			}()
+			runDone <- a.Run(app.SetComponents(comps...))
+		}()
+		select {
+		case <-srv.entered:
+		case err := <-runDone:
+			t.Fatalf("C14: Run returned before the serving runner was entered: %v", err)
+		case <-time.After(20 * time.Second):
+			t.Fatalf("C14: the serving runner was not entered within 20s")
+		}
+		closed := make(chan struct{})
+		go func() { defer close(closed); a.Close() }()
+		select {
+		case <-closed:
+		case <-time.After(20 * time.Second):
+			t.Fatalf("C14: App.Close did not return within 20s although no closer blocks (n=%d)", n)
+		}
+		for i, c := range cs {
+			if calls, done := atomic.LoadInt32(&c.calls), atomic.LoadInt32(&c.done); calls != 1 || done != 1 {
+				t.Fatalf("C14: Close was called while a runner is serving: closer %d invoked %d times (returned %d), exactly once expected (n=%d)", i, calls, done, n)
+			}
+		}
+		if got := atomic.LoadInt32(&srv.closes); got != 1 {
+			t.Fatalf("C14: the serving runner (a closer) was closed %d times, exactly once expected", got)
+		}
+		select {
+		case err := <-runDone:
+			if err != nil {
+				t.Fatalf("C14: Run returned %v after the serving runner was closed", err)
+			}
+		case <-time.After(20 * time.Second):
+			t.Fatalf("C14: Run did not return within 20s after the serving runner was closed")
+		}
+		kit.Rec.Case(fmt.Sprintf("close-while-serving n=%d", n), true, "close-while-runner-serves")
+	})
 }
